@@ -46,7 +46,10 @@ RULE = (
     "a run into a fresh destination writes. ONE FLAG AT A TIME (family flags): 21 base argument lists over all 16 "
     "commands x every flag of the command (174 variants): base, variant, base, variant ... in one process with "
     "--num-workers 0, every call compared with the same call made as the FIRST call of a fresh process (forked "
-    "from an interpreter that has called nothing). GLOBAL STATE: ~36 cases of every family (and all late-time-stamp "
+    "from an interpreter that has called nothing). LISTING ORDER (family ls): ~14 multi-utterance cases of every "
+    "family are evaluated with os.listdir / os.scandir below the scratch root answering in each of six orders "
+    "(mc.seams.ListingPolicy: every permutation of a directory with <= 3 entries; serial run and every worker "
+    "schedule alike): all files, printed text and oracle verdicts must coincide. GLOBAL STATE: ~36 cases of every family (and all late-time-stamp "
     "cases) are evaluated with the stock default dtype and under torch.set_default_dtype(float64) in the "
     "parent: all observations must coincide, and under float64 the serial run must equal every worker schedule, "
     "the virtual spawn pool running its work with the default dtype reset to float32 as a fresh interpreter "
